@@ -224,7 +224,7 @@ func TestC41(t *testing.T) {
 			} else {
 				rec.Class("mutant/invalid-json")
 			}
-			if rec.WantSample("mutant:" + label) && len(mut) < 400 {
+			if rec.WantSample("mutant:"+label) && len(mut) < 400 {
 				rec.Sample("mutant:"+label, map[string]any{"mutation": label, "input": string(mut)})
 			}
 			if msg := c41Mutant(rec, known, mut, label); msg != "" {
